@@ -63,6 +63,15 @@ def shapes(depth, keys=("String", "int", "Nope", "Par")):
 ALL17_LEAFSRC = list(LEAVES.values())
 
 
+BUILTIN_NAMED = [
+    [("a", "package p;parcelable ParcelableHolder;parcelable P{ParcelableHolder[] a;List<ParcelableHolder> b;Map<String,ParcelableHolder> c;}")],
+    [("a", "package p;parcelable FileDescriptor;parcelable IBinder;parcelable P{List<FileDescriptor> a;Map<String,FileDescriptor> b;IBinder[] c;}")],
+    [("a", "package com.x;interface IBinder{}"), ("b", "package p;import com.x.IBinder;parcelable P{IBinder[] a;List<IBinder> b;Map<String,IBinder> c;}")],
+    [("a", "package com.x;enum FileDescriptor{A}"), ("b", "package p;import com.x.FileDescriptor;parcelable P{Map<String,FileDescriptor> a;FileDescriptor[] b;List<FileDescriptor> c;}")],
+    [("a", "package com.x;parcelable ParcelFileDescriptor{}"), ("b", "package p;import com.x.ParcelFileDescriptor;interface I{void f(in ParcelFileDescriptor[] a, in List<ParcelFileDescriptor> b);}")],
+]
+
+
 def gen_C08(rng, tier):
     cases = []
     sh = shapes(2)
@@ -84,6 +93,9 @@ def gen_C08(rng, tier):
             main = HEAD + "parcelable P{" + "".join(f"const {t} K{j}=1;" for j, t in enumerate(chunk)) + "}"
         cases.append(nm(f"ex{k}", project(main)))
         k += 1
+    # user types sharing their simple name with a built-in (forward-declared, or imported from a non-Android package) as elements
+    for j, files in enumerate(BUILTIN_NAMED):
+        cases.append(nm(f"bn{j}", files))
     n = 300 if tier == "quick" else 4000
     for i in range(n):
         fs = gen.gen_project(rng)
@@ -157,6 +169,13 @@ def gen_projects(rng, tier, n_quick=1500, n_thorough=20000):
         [("a", "package com.acme.\n   telemetry . /* x */ model; parcelable Sample {}"),
          ("b", "package p; import com.acme.telemetry.model.Sample; interface I { void f(in Sample s, in com . acme.telemetry.model . Sample t); }")],
         [("a", "package android.os;interface ParcelFileDescriptor{}"), ("b", "package p;import android.os.ParcelFileDescriptor;parcelable P{ParcelFileDescriptor a;android.os.ParcelFileDescriptor b;}")],
+        # user types that share their simple name with a built-in, reached through a non-Android import or a forward declaration,
+        # as container elements: the import / declaration decides what the name denotes
+        [("a", "package p;parcelable ParcelableHolder;parcelable P{ParcelableHolder[] a;List<ParcelableHolder> b;Map<String,ParcelableHolder> c;}")],
+        [("a", "package p;parcelable FileDescriptor;parcelable IBinder;parcelable P{List<FileDescriptor> a;Map<String,FileDescriptor> b;IBinder[] c;}")],
+        [("a", "package com.x;interface IBinder{}"), ("b", "package p;import com.x.IBinder;parcelable P{IBinder[] a;List<IBinder> b;Map<String,IBinder> c;}")],
+        [("a", "package com.x;enum FileDescriptor{A}"), ("b", "package p;import com.x.FileDescriptor;parcelable P{Map<String,FileDescriptor> a;FileDescriptor[] b;List<FileDescriptor> c;}")],
+        [("a", "package com.x;parcelable ParcelFileDescriptor{}"), ("b", "package p;import com.x.ParcelFileDescriptor;interface I{void f(in ParcelFileDescriptor[] a, in List<ParcelFileDescriptor> b);}")],
     ]
     for i, f in enumerate(fixed):
         cases.append(nm(f"fixed{i}", f))
@@ -538,7 +557,7 @@ def gen_known_malformed(rng, n):
     for i in range(n):
         d = gen.gen_doc(rng, opts={"pdoc": 0.0, "nmembers": rng.choice([1, 2, 3])})
         toks = [t.text for t in gen.tokens(d)]
-        fam = rng.choice(["kwname", "nopackage", "twoitems", "trailing", "kwmember", "kwpackage"])
+        fam = rng.choice(["kwname", "nopackage", "twoitems", "trailing", "kwmember", "kwpackage", "uniident", "uniident"])
         if fam == "kwname":
             k = toks.index("{") - 1
             toks[k] = rng.choice(kw)
@@ -550,6 +569,17 @@ def gen_known_malformed(rng, n):
             toks = toks + [rng.choice(["x", ";", "}", "1", "@A", "package"])]
         elif fam == "kwpackage":
             toks[1] = rng.choice(kw)
+        elif fam == "uniident":
+            # a letter, digit or mark outside ASCII glued to an identifier (item, member, argument, type, package segment ...):
+            # identifiers are ASCII, so the document is lexically malformed
+            idx = [j for j, t in enumerate(toks) if re.fullmatch(r"[A-Za-z_][A-Za-z0-9_]*", t) and t not in kw
+                   and t not in ("String", "List", "Map", "CharSequence", "true", "false")]
+            if not idx:
+                continue
+            j = rng.choice(idx)
+            ch = rng.choice(["é", "ß", "λ", "日", "١", "７", "ı", "а", "\u0301", "ǅ"])
+            pos = rng.randrange(1, len(toks[j]) + 1)
+            toks[j] = toks[j][:pos] + ch + toks[j][pos:]
         else:
             # a keyword where a member name is expected
             # (not a value: `= true ;`, `= Foo.BAR ;` are followed by `;` too, and replacing a value by `false` is well-formed)
@@ -843,6 +873,17 @@ def with_histories(gen_fn, every=3):
 
 
 # ------------------------------------------------------------------ C17: what the qualified names should be, read off the text
+def gen_C16(rng, tier):
+    cases = gen_projects(rng, tier, 250, 4000)
+    # columns beyond 2^16 (a minified file, or a very long comment before the code on the same line): the harness probes a sparse
+    # set of positions plus every position inside a symbol's name
+    pad = "x" * 66000
+    cases.append(nm("longline1", [("f", "package a.b; /* " + pad + " */ interface IFoo { void bar(in int q); const int K = 1; }")]))
+    cases.append(nm("longline2", [("f", "package a.b;\n/* " + pad + " */ interface IFoo {\n    void bar(in int q);\n}\n")]))
+    cases.append(nm("longline3", [("f", "package a.b;\n// " + pad + "\ninterface IFoo { void bar(in int q); /* " + pad + " */ int baz(); }\n")]))
+    return cases
+
+
 def expected_names(text):
     """(dotted package name, package.Name) by a reading of the text that is independent of the library: comments out,
     the package clause with all white space removed, the name after the item keyword"""
